@@ -9,6 +9,7 @@ import checks_problem
 import checks_hist
 import checks_domain
 import checks_numeric
+import checks_ma
 
 CHECKS = {
     "C02": (lambda ctx: checks_core.run_core(ctx, "pre"), "model_checking"),
@@ -18,6 +19,8 @@ CHECKS = {
     "C05": (checks_problem.run, "model_checking"),
     "C01": (checks_domain.run_c01, "model_checking"),
     "C12": (checks_numeric.run, "model_checking"),
+    "C15": (checks_ma.run_c15, "model_checking"),
+    "C16": (checks_ma.run_c16, "model_checking"),
     "C20": (checks_core.run_c20, "model_checking"),
     "C18": (checks_core.run_c18, "model_checking"),
     "C04": (checks_hist.run_c04, "model_checking"),
@@ -156,6 +159,23 @@ META["C12"] = {
     "text": "MC_Numeric checks evaluation order and the comparison laws in the spec; per EPSILON / NUMERIC_PRECISION setting the "
             "library answers boundary probes, evaluates deep expressions and prints constants, and TLC judges each answer "
             "against Semantics!Eval / Rat!CmpTol and each printed text against the source expression."}
+META["C15"] = {
+    "engine": "M+V", "design_ref": "DESIGN.md section 6 (C15), Appendix C",
+    "note": "Any conversion satisfying the five clauses is accepted (greedy / maximal packing is not required). Known finding "
+            "ConvertNonCommuting. Bounded by the plans explored.",
+    "technique": "TLC model checking of a greedy packer against ValidConversion (weakened interference test refuted) + trace "
+                 "validation of PlanConverter.convert_plan: TLC evaluates ValidConversion on each returned joint plan",
+    "text": "MC_Convert enumerates every valid plan of a micro multi-agent domain and checks that semantic-interference packing "
+            "is a valid conversion; the library's converter is run on random valid plans and TLC checks conservation, "
+            "per-agent order, slots, applicability + commutation per step and final-state equality, all computed by the spec."}
+META["C16"] = {
+    "engine": "M+V", "design_ref": "DESIGN.md section 6 (C16)",
+    "note": "Non-commuting member sets are left open (the property's premise). Bounded by the joint actions explored.",
+    "technique": "trace validation of apply_actions / MultiAgentTrajectoryExporter against MultiAgent!JointExp (sequential "
+                 "application under every permutation when the members commute; refusal rule), plus MC_Convert's JointOrderFree",
+    "text": "Each joint action is applied in several arrangements of its members and nops; TLC decides whether the members are "
+            "applicable and commute and, if so, demands the state of the sequential application; inapplicable members must be "
+            "refused unless allowed; exported joint trajectories and their re-parse are compared with the run."}
 NOT_YET = {}
 
 
